@@ -442,3 +442,7 @@ mod tests {
         assert!(env.get_transactions().is_empty());
     }
 }
+
+#[cfg(any(kani, verif_replay))]
+#[path = "/verif/harness/momentum_agent_proofs.rs"]
+pub(crate) mod verif_proofs;
